@@ -62,7 +62,8 @@ func runOne(w *tr.Writer, reset tr.Ev) {
 	pan := tr.Guard(func() {
 		switch mode {
 		case "ecbalance":
-			nodes, err = shell.VerifPlanEcBalance(topo, tr.S(opt, "col"), plansnap.Collections(topo, true), tr.S(opt, "dc"))
+			nodes, err = shell.VerifPlanEcBalance(topo, tr.S(opt, "col"), plansnap.Collections(topo, true), tr.S(opt, "dc"),
+				func(name string) { w.Emit(tr.Ev{"ev": "phase", "name": name}) })
 		case "ecevacuate":
 			err = shell.VerifPlanEvacuateEc(topo, tr.S(opt, "node"), tr.B(opt, "skip"), &out)
 		default:
